@@ -38,8 +38,11 @@ Record wcfg := {
   w_negotiated : bool          (* newCompressionWriter != nil *)
 }.
 
+(* newConn: 0 means the default size; anything smaller than a control payload is raised to 125
+   so that a valid control message always fits one frame; plus room for the largest header *)
 Definition eff_wbuf (user:N) : N :=
-  (if user =? 0 then c_defaultWriteBufferSize else user) + c_maxFrameHeaderSize.
+  (if user =? 0 then c_defaultWriteBufferSize
+   else if user <? c_maxControlFramePayloadSize then c_maxControlFramePayloadSize else user) + c_maxFrameHeaderSize.
 
 Record mwr := { m_id : nat; m_buf : bytes; m_ftype : N; m_compress : bool; m_err : option werror }.
 #[export] Instance eta_mwr : Settable _ := settable! Build_mwr <m_id; m_buf; m_ftype; m_compress; m_err>.
